@@ -567,7 +567,11 @@ def rules(tier):
             # C02-cb: recursion limit of the restore walk lowered - a deep sub-tree is lost on resume
             ('C02.R17', _shared_rule('c08', 'r9_restore_depth')),
             # C02-ca: skip_case restored from the skip_brute key
-            ('C02.R18', _shared_rule('c08', 'r11_restore_is_verbatim'))] + _loader_bundle() + []
+            ('C02.R18', _shared_rule('c08', 'r11_restore_is_verbatim')),
+            # C02-da: session saved after the popped pre-terminal was generated - it is generated again after --load
+            ('C02.R19', _shared_rule('c08', 'r23_no_save_after_generation')),
+            # C14-db: pre-terminals right of an exhausted position are lost on resume
+            ('C02.R20', _shared_rule('c08', 'r24_restore_visits_every_position'))] + _loader_bundle() + []
 
 
 META = {
